@@ -3,15 +3,21 @@ From Coq Require Import ZArith NArith List Bool Lia.
 From V Require Import Model.Cache.
 Import ListNotations.
 Open Scope N_scope.
-Arguments set_key : simpl never.
+
+Lemma lookup_del_key : forall A (c c' : N) (l : list (N * A)),
+  lookup c' (del_key c l) = if c =? c' then None else lookup c' l.
+Proof.
+  intros. unfold del_key. induction l as [|[k x] r IH]; simpl.
+  - destruct (c =? c'); reflexivity.
+  - destruct (k =? c) eqn:E2; simpl.
+    + apply N.eqb_eq in E2. subst. rewrite IH. destruct (c =? c'); reflexivity.
+    + rewrite IH. destruct (c =? c') eqn:E; auto. apply N.eqb_eq in E. subst. rewrite E2. reflexivity.
+Qed.
 
 Lemma lookup_set_key : forall A (c c' : N) (v : A) l,
   lookup c' (set_key c v l) = if c =? c' then Some v else lookup c' l.
 Proof.
-  intros. unfold set_key. cbn [lookup]. destruct (c =? c') eqn:E; auto.
-  induction l as [|[k x] r IH]; simpl; auto. destruct (k =? c) eqn:E2; simpl.
-  - apply N.eqb_eq in E2. subst. rewrite E. exact IH.
-  - destruct (k =? c'); auto.
+  intros. unfold set_key. cbn [lookup]. rewrite lookup_del_key. destruct (c =? c'); reflexivity.
 Qed.
 
 (* the answer the tables give *)
@@ -20,32 +26,45 @@ Definition true_summary (t : tables) (c : N) : list N :=
   | Some kids => union_all (map (table_summary t) kids)
   | None => table_summary t c
   end.
+Definition summary_ans (t : tables) (c : N) : list N :=
+  match key_of t c with Some _ => true_summary t c | None => err_ans end.
 Definition members (t : tables) (c : N) : list N :=
   match lookup c (chains t) with Some kids => kids | None => [c] end.
 Fixpoint true_query (t : tables) (ty : N) (ms : list N) : list N :=
   match ms with
   | [] => []
-  | m :: r => (if memN ty (true_summary t m) then datasets_in t ty m else []) ++ true_query t ty r
+  | m :: r => (if memN ty (summary_ans t m) then datasets_in t ty m else []) ++ true_query t ty r
   end.
+Definition query_ans (t : tables) (ty c : N) : list N :=
+  match key_of t c with Some _ => true_query t ty (members t c) | None => err_ans end.
 
-(* chains are one level deep *)
+(* keys are unique; chains exist, are one level deep and their children exist *)
+Definition kinj (t : tables) : Prop :=
+  forall c c' k, key_of t c = Some k -> key_of t c' = Some k -> c = c'.
 Definition wf_tables (t : tables) : Prop :=
-  forall c kids, lookup c (chains t) = Some kids -> forall m, In m kids -> lookup m (chains t) = None.
+  kinj t /\
+  forall c kids, lookup c (chains t) = Some kids ->
+    key_of t c <> None /\ forall m, In m kids -> lookup m (chains t) = None /\ key_of t m <> None.
 
 Definition rc_ok (t : tables) (rc : list (N * list N)) : Prop :=
   forall c kids, lookup c rc = Some kids -> lookup c (chains t) = Some kids.
+(* a cached summary is the summary of the collection that has this key NOW, and every cached key is in use *)
 Definition sc_ok (t : tables) (sc : list (N * list N)) : Prop :=
-  forall c s, lookup c sc = Some s -> s = true_summary t c.
+  forall k s, lookup k sc = Some s -> (exists c, key_of t c = Some k) /\ forall c, key_of t c = Some k -> s = true_summary t c.
 Definition Coherent (t : tables) (cs : caches) : Prop :=
   (forall rc, rcache cs = Some rc -> rc_ok t rc) /\ (forall sc, scache cs = Some sc -> sc_ok t sc).
 
 Lemma coherent_none : forall t, Coherent t no_caches.
 Proof. intros. split; simpl; intros; discriminate. Qed.
 
-Lemma sc_ok_set : forall t sc c s, sc_ok t sc -> s = true_summary t c -> sc_ok t (set_key c s sc).
+Lemma sc_ok_nil : forall t, sc_ok t [].
+Proof. intros t k s L. discriminate. Qed.
+
+Lemma sc_ok_set : forall t sc c k s, kinj t -> sc_ok t sc -> key_of t c = Some k -> s = true_summary t c -> sc_ok t (set_key k s sc).
 Proof.
-  intros t sc c s H Hs c' s' L. rewrite lookup_set_key in L. destruct (c =? c') eqn:E.
-  - apply N.eqb_eq in E. subst. now inversion L.
+  intros t sc c k s Hi H Hk Hs k' s' L. rewrite lookup_set_key in L. destruct (k =? k') eqn:E.
+  - apply N.eqb_eq in E. subst k'. inversion L; subst s'. split; [exists c; auto|]. intros c' Hc'.
+    rewrite (Hi c' c k Hc' Hk). exact Hs.
   - now apply H.
 Qed.
 
@@ -64,26 +83,28 @@ Proof.
   - split; auto. split; auto. rewrite R. auto.
 Qed.
 
-Lemma sc_ok_fold : forall t ms sc, sc_ok t sc -> (forall m, In m ms -> lookup m (chains t) = None) ->
-  sc_ok t (fold_left (fun acc m => set_key m (table_summary t m) acc) ms sc).
+Lemma sc_ok_fold : forall t ms sc, kinj t -> sc_ok t sc -> (forall m, In m ms -> lookup m (chains t) = None) ->
+  sc_ok t (fold_left (cache_member t) ms sc).
 Proof.
-  induction ms; simpl; intros; auto. apply IHms; auto. apply sc_ok_set; auto.
-  unfold true_summary. rewrite (H0 a); auto.
+  induction ms; simpl; intros; auto. apply IHms; auto. unfold cache_member. destruct (key_of t a) as [ka|] eqn:K; auto.
+  apply (sc_ok_set t sc a ka); auto. unfold true_summary. rewrite (H1 a); auto.
 Qed.
 
 Lemma fetch_summary_spec : forall t cs c, wf_tables t -> Coherent t cs ->
-  fst (fetch_summary t cs c) = true_summary t c /\ Coherent t (snd (fetch_summary t cs c)).
+  fst (fetch_summary t cs c) = summary_ans t c /\ Coherent t (snd (fetch_summary t cs c)).
 Proof.
-  intros t cs c Hw Hc. unfold fetch_summary.
-  destruct (match scache cs with Some sc => lookup c sc | None => None end) as [s|] eqn:Hit.
-  - simpl. split; auto. destruct (scache cs) as [sc|] eqn:S; [|discriminate]. destruct Hc as [_ Hs]. now apply (Hs sc S).
+  intros t cs c [Hi Hw] Hc. unfold fetch_summary, summary_ans. destruct (key_of t c) as [k|] eqn:K; [|split; auto].
+  destruct (match scache cs with Some sc => lookup k sc | None => None end) as [s|] eqn:Hit.
+  - simpl. split; auto. destruct (scache cs) as [sc|] eqn:S; [|discriminate]. destruct Hc as [_ Hs].
+    destruct (Hs sc S k s Hit) as [_ H2]. now apply H2.
   - destruct (children_of_spec t cs c Hc) as [K1 K2]. destruct (children_of t cs c) as [kids cs1]. simpl in K1, K2. subst kids.
     destruct K2 as [Hr1 Hs1]. simpl. split.
     + unfold true_summary. destruct (lookup c (chains t)); auto.
     + split; simpl; auto. intros sc' Hsc'. destruct (scache cs1) as [sc|] eqn:S; [|discriminate]. inversion Hsc'; subst. clear Hsc'.
       specialize (Hs1 sc eq_refl). destruct (lookup c (chains t)) as [kids|] eqn:L.
-      * apply sc_ok_set; [|unfold true_summary; now rewrite L]. apply sc_ok_fold; auto. intros m Hm. now apply (Hw c kids L).
-      * simpl. apply sc_ok_set; auto. unfold true_summary. now rewrite L.
+      * apply (sc_ok_set t _ c k); auto; [|unfold true_summary; now rewrite L]. apply sc_ok_fold; auto.
+        intros m Hm. destruct (Hw c kids L) as [_ Hk]. now apply Hk.
+      * simpl. unfold cache_member. rewrite K. apply (sc_ok_set t sc c k); auto. unfold true_summary. now rewrite L.
 Qed.
 
 Lemma query_members_spec : forall t ty ms cs, wf_tables t -> Coherent t cs ->
@@ -95,9 +116,10 @@ Proof.
 Qed.
 
 Lemma query_datasets_spec : forall t ty c cs, wf_tables t -> Coherent t cs ->
-  fst (query_datasets t cs ty c) = true_query t ty (members t c) /\ Coherent t (snd (query_datasets t cs ty c)).
+  fst (query_datasets t cs ty c) = query_ans t ty c /\ Coherent t (snd (query_datasets t cs ty c)).
 Proof.
-  intros. unfold query_datasets. destruct (children_of_spec t cs c H0) as [K1 K2].
+  intros. unfold query_datasets, query_ans. destruct (key_of t c); [|split; auto].
+  destruct (children_of_spec t cs c H0) as [K1 K2].
   destruct (children_of t cs c) as [kids cs1]. simpl in K1, K2. subst. apply query_members_spec; auto.
 Qed.
 
@@ -111,120 +133,218 @@ Proof.
   - rewrite (proj1 (fetch_summary_spec t cs c H H0)). symmetry. apply fetch_summary_spec; auto. apply coherent_none.
 Qed.
 
-(* ---- histories ---- *)
-Definition is_chain (t : tables) (c : N) : Prop := lookup c (chains t) <> None.
-Definition wf_rop (t : tables) (o : rop) : Prop :=
-  match o with
-  | SetChain c kids => is_chain t c /\ forall m, In m kids -> lookup m (chains t) = None
-  | _ => True
-  end.
-Definition no_setchain (o : rop) : Prop := match o with SetChain _ _ => False | _ => True end.
-
-Lemma wf_tables_step : forall fx uc t cs o, wf_tables t -> wf_rop t o -> wf_tables (fst (fst (rstep fx uc (t, cs) o))).
+(* ---- key allocation ---- *)
+Lemma fold_max_ge : forall l a, a <= fold_left N.max l a.
+Proof. induction l; simpl; intros; [lia|]. specialize (IHl (N.max a0 a)). lia. Qed.
+Lemma fold_max_in : forall l a x, In x l -> x <= fold_left N.max l a.
 Proof.
-  intros fx uc t cs o Hw Ho. destruct o; cbn [rstep fst snd]; auto.
-  - destruct uc; simpl; auto.
-  - destruct Ho as [Hc Hk]. intros c' k' L m Hm. cbn [chains] in *. rewrite lookup_set_key in *.
-    destruct (c =? c') eqn:E.
-    + inversion L; subst. destruct (c =? m) eqn:E2; [|now apply Hk].
-      apply N.eqb_eq in E2. subst. exfalso. apply Hc. now apply Hk.
-    + destruct (c =? m) eqn:E2; [|now apply (Hw c' k' L)].
-      apply N.eqb_eq in E2. subst. exfalso. apply Hc. now apply (Hw c' k' L).
-  - destruct (fetch_summary t cs c). simpl. auto.
-  - destruct (query_datasets t cs ty c). simpl. auto.
+  induction l; simpl; intros; [tauto|]. destruct H.
+  - subst. assert (H := fold_max_ge l (N.max a0 x)). lia.
+  - now apply IHl.
+Qed.
+Lemma lookup_in_snd : forall (l : list (N * N)) c k, lookup c l = Some k -> In k (map snd l).
+Proof.
+  induction l as [|[a b] r IH]; simpl; intros; [discriminate|]. destruct (a =? c); [inversion H; auto|]. right. eauto.
+Qed.
+Lemma key_le_max : forall t c k, key_of t c = Some k -> k <= max_key t.
+Proof. intros. unfold max_key. apply fold_max_in. now apply (lookup_in_snd _ c). Qed.
+
+Lemma exists_b_true : forall t c, exists_b t c = true <-> key_of t c <> None.
+Proof. intros. unfold exists_b. destruct (key_of t c); split; intros; try congruence. Qed.
+Lemma is_chain_b_false : forall t c, is_chain_b t c = false <-> lookup c (chains t) = None.
+Proof. intros. unfold is_chain_b. destruct (lookup c (chains t)); split; intros; congruence. Qed.
+
+Lemma is_kid_false : forall t c, is_kid t c = false -> forall p kids, lookup p (chains t) = Some kids -> ~ In c kids.
+Proof.
+  intros t c H p kids L Hin. unfold is_kid in H. rewrite <- not_true_iff_false in H. apply H. apply existsb_exists.
+  exists (p, kids). split.
+  - clear H Hin. induction (chains t) as [|[a b] r IH]; simpl in *; [discriminate|]. destruct (a =? p) eqn:E.
+    + inversion L; subst. apply N.eqb_eq in E. subst. auto.
+    + right. auto.
+  - simpl. unfold memN. apply existsb_exists. exists c. split; auto. apply N.eqb_refl.
 Qed.
 
-Lemma tables_step_uc : forall fx t cs cs' o,
-  fst (fst (rstep fx true (t, cs) o)) = fst (fst (rstep fx false (t, cs') o)).
+(* ---- one step ---- *)
+Arguments set_key : simpl never.
+Arguments del_key : simpl never.
+
+Lemma wf_tables_step : forall fx uc t cs o, wf_tables t -> wf_tables (fst (fst (rstep fx uc (t, cs) o))).
 Proof.
-  intros. destruct o; simpl; auto.
+  intros fx uc t cs o [Hi Hw]. destruct o; cbn [rstep fst snd]; try (split; assumption).
+  - destruct uc; simpl; split; assumption.
+  - (* Register *)
+    destruct (exists_b t c) eqn:E; cbn [fst snd]; [split; assumption|]. remember (1 + max_key t) as nk eqn:Hnk.
+    assert (Kc : key_of t c = None) by (unfold exists_b in E; destruct (key_of t c); congruence).
+    assert (Cc : lookup c (chains t) = None).
+    { destruct (lookup c (chains t)) eqn:L; auto. destruct (Hw c l L) as [H1 _]. congruence. }
+    split.
+    + intros a b k Ha Hb. unfold key_of in *. cbn [ckeys lookup] in *.
+      destruct (c =? a) eqn:Ea; destruct (c =? b) eqn:Eb.
+      * apply N.eqb_eq in Ea. apply N.eqb_eq in Eb. congruence.
+      * injection Ha as <-. assert (Q := key_le_max t b _ Hb). lia.
+      * injection Hb as <-. assert (Q := key_le_max t a _ Ha). lia.
+      * now apply (Hi a b k).
+    + intros a kids L. unfold key_of. cbn [ckeys chains lookup] in *.
+      assert (L' : lookup a (chains t) = Some kids \/ (a = c /\ kids = [])).
+      { destruct chain; auto. rewrite lookup_set_key in L. destruct (c =? a) eqn:Ea; auto.
+        apply N.eqb_eq in Ea. inversion L. auto. }
+      destruct L' as [L'|[-> ->]].
+      * destruct (Hw a kids L') as [H1 H2]. split.
+        { destruct (c =? a); [discriminate|exact H1]. }
+        { intros m Hm. destruct (H2 m Hm) as [M1 M2]. split.
+          - destruct chain; auto. rewrite lookup_set_key. destruct (c =? m) eqn:Em; auto. apply N.eqb_eq in Em. subst m. exfalso. apply M2. exact Kc.
+          - destruct (c =? m); [discriminate|exact M2]. }
+      * split; [rewrite N.eqb_refl; discriminate | intros m []].
+  - (* RemoveColl *)
+    destruct (negb (exists_b t c) || is_kid t c) eqn:E; cbn [fst snd]; [split; assumption|].
+    apply orb_false_iff in E. destruct E as [_ Ek]. split.
+    + intros a b k Ha Hb. unfold key_of in *. cbn [ckeys] in *. rewrite lookup_del_key in *.
+      destruct (c =? a); [discriminate|]. destruct (c =? b); [discriminate|]. now apply (Hi a b k).
+    + intros a kids L. unfold key_of. cbn [ckeys chains] in *. rewrite lookup_del_key in *. destruct (c =? a) eqn:Ea; [discriminate|].
+      destruct (Hw a kids L) as [H1 H2]. split; auto. intros m Hm. destruct (H2 m Hm) as [M1 M2].
+      rewrite !lookup_del_key. destruct (c =? m) eqn:Em.
+      * apply N.eqb_eq in Em. subst. exfalso. now apply (is_kid_false t m Ek a kids L).
+      * auto.
+  - (* SetChain *)
+    destruct (is_chain_b t c && forallb (fun m => exists_b t m && negb (is_chain_b t m)) kids) eqn:E; cbn [fst snd]; [|split; assumption].
+    apply andb_true_iff in E. destruct E as [Ec Ek]. rewrite forallb_forall in Ek.
+    assert (Hc : exists k0, lookup c (chains t) = Some k0) by (unfold is_chain_b in Ec; destruct (lookup c (chains t)); [eauto|discriminate]).
+    destruct Hc as [k0 Hc]. split; [exact Hi|].
+    intros a ks L. unfold key_of. cbn [ckeys chains] in *. rewrite lookup_set_key in L. destruct (c =? a) eqn:Ea.
+    + apply N.eqb_eq in Ea. subst a. inversion L; subst ks. split; [exact (proj1 (Hw c k0 Hc))|].
+      intros m Hm. specialize (Ek m Hm). apply andb_true_iff in Ek. destruct Ek as [E1 E2].
+      apply negb_true_iff in E2. apply is_chain_b_false in E2. apply exists_b_true in E1. split; auto.
+      rewrite lookup_set_key. destruct (c =? m) eqn:Em; auto. apply N.eqb_eq in Em. subst. congruence.
+    + destruct (Hw a ks L) as [H1 H2]. split; auto. intros m Hm. destruct (H2 m Hm) as [M1 M2]. split; auto.
+      rewrite lookup_set_key. destruct (c =? m) eqn:Em; auto. apply N.eqb_eq in Em. subst. congruence.
+  - (* Put *)
+    destruct (exists_b t run && negb (is_chain_b t run)); cbn [fst snd]; split; assumption.
+  - destruct (fetch_summary t cs c). simpl. split; assumption.
+  - destruct (query_datasets t cs ty c). simpl. split; assumption.
+Qed.
+
+(* the tables after a step do not depend on the caches, the fixes or the use of contexts *)
+Lemma tables_fx : forall fx fx' uc uc' t cs cs' o, fst (fst (rstep fx uc (t, cs) o)) = fst (fst (rstep fx' uc' (t, cs') o)).
+Proof.
+  intros. destruct o; cbn [rstep fst snd]; auto.
+  - destruct uc, uc'; auto.
+  - destruct (exists_b t c); auto.
+  - destruct (negb (exists_b t c) || is_kid t c); auto.
+  - destruct (is_chain_b t c && forallb (fun m => exists_b t m && negb (is_chain_b t m)) kids); auto.
+  - destruct (exists_b t run && negb (is_chain_b t run)); auto.
   - destruct (fetch_summary t cs c), (fetch_summary t cs' c). auto.
   - destruct (query_datasets t cs ty c), (query_datasets t cs' ty c). auto.
 Qed.
 
-Lemma coherent_step : forall fx uc t cs o, wf_tables t -> Coherent t cs -> (fx = true \/ no_setchain o) ->
-  Coherent (fst (fst (rstep fx uc (t, cs) o))) (snd (fst (rstep fx uc (t, cs) o))).
+Lemma table_summary_same : forall t t' m, summ t' = summ t -> table_summary t' m = table_summary t m.
+Proof. intros. unfold table_summary. now rewrite H. Qed.
+
+Lemma coherent_step : forall uc t cs o, wf_tables t -> Coherent t cs ->
+  Coherent (fst (fst (rstep as_coded uc (t, cs) o))) (snd (fst (rstep as_coded uc (t, cs) o))).
 Proof.
-  intros fx uc t cs o Hw [Hr Hs] Hf. destruct o; cbn [rstep fst snd].
+  intros uc t cs o [Hi Hw] [Hr Hs]. destruct o; cbn [rstep fst snd].
   - destruct uc; simpl; [|split; auto]. split; simpl.
     + intros rc H. destruct (rcache cs) eqn:R; [now apply Hr|]. inversion H; subst. intros c k L. discriminate.
-    + intros sc H. destruct (scache cs) eqn:S; [now apply Hs|]. inversion H; subst. intros c k L. discriminate.
+    + intros sc H. destruct (scache cs) eqn:S; [now apply Hs|]. inversion H; subst. apply sc_ok_nil.
   - apply coherent_none.
-  - destruct Hf as [Hf|Hf]; [subst|destruct Hf]. split; cbn [rcache scache].
+  - (* Register: the new key is larger than every key in use, hence not cached *)
+    destruct (exists_b t c) eqn:E; cbn [fst snd]; [split; auto|]. remember (1 + max_key t) as nk eqn:Hnk.
+    assert (Kc : key_of t c = None) by (unfold exists_b in E; destruct (key_of t c); congruence).
+    assert (Cc : lookup c (chains t) = None).
+    { destruct (lookup c (chains t)) eqn:L; auto. destruct (Hw c l L) as [H1 _]. congruence. }
+    assert (Nk : forall p kids, lookup p (chains t) = Some kids -> ~ In c kids).
+    { intros p kids L Hin. destruct (Hw p kids L) as [_ H2]. destruct (H2 c Hin). congruence. }
+    split; cbn [rcache scache].
+    + intros rc' H. destruct (rcache cs) as [rc|] eqn:R; [|discriminate]. inversion H; subst. intros a ks L. cbn [chains].
+      destruct chain.
+      * rewrite lookup_set_key in *. destruct (c =? a); auto. now apply (Hr rc eq_refl).
+      * now apply (Hr rc eq_refl).
+    + intros sc H. specialize (Hs sc H). intros k s L. destruct (Hs k s L) as [[c0 Hc0] H2]. split.
+      * exists c0. unfold key_of in *. cbn [ckeys lookup]. destruct (c =? c0) eqn:E0; auto. apply N.eqb_eq in E0. subst. congruence.
+      * intros a Ha. unfold key_of in Ha. cbn [ckeys lookup] in Ha. destruct (c =? a) eqn:Ea.
+        { injection Ha as <-. assert (Q := key_le_max t c0 _ Hc0). lia. }
+        { rewrite (H2 a Ha). unfold true_summary. cbn [chains].
+          assert (La : lookup a (if chain then set_key c [] (chains t) else chains t) = lookup a (chains t)).
+          { destruct chain; auto. rewrite lookup_set_key. now rewrite Ea. }
+          rewrite La. reflexivity. }
+  - (* RemoveColl: the summary cache is dropped *)
+    destruct (negb (exists_b t c) || is_kid t c) eqn:E; cbn [fst snd]; [split; auto|]. split; cbn [rcache scache].
+    + intros rc' H. destruct (rcache cs) as [rc|] eqn:R; [|discriminate]. inversion H; subst. intros a ks L. cbn [chains].
+      rewrite lookup_del_key in *. destruct (c =? a); [discriminate|]. now apply (Hr rc eq_refl).
+    + intros sc' H. destruct (scache cs); [|discriminate]. cbn [rm_fix as_coded] in H. inversion H; subst. apply sc_ok_nil.
+  - (* SetChain *)
+    destruct (is_chain_b t c && forallb (fun m => exists_b t m && negb (is_chain_b t m)) kids) eqn:E; cbn [fst snd]; [|split; auto].
+    split; cbn [rcache scache].
     + intros rc' H. destruct (rcache cs) as [rc|] eqn:R; [|discriminate]. inversion H; subst. intros c' k' L. cbn [chains].
       rewrite lookup_set_key in *. destruct (c =? c'); auto. now apply (Hr rc eq_refl).
-    + intros sc' H. destruct (scache cs); [|discriminate]. inversion H; subst. intros c' s' L. discriminate.
-  - split; simpl.
+    + intros sc' H. destruct (scache cs); [|discriminate]. cbn [chain_fix as_coded] in H. inversion H; subst. apply sc_ok_nil.
+  - (* Put *)
+    destruct (exists_b t run && negb (is_chain_b t run)); cbn [fst snd]; [|split; auto]. split; cbn [rcache scache].
     + intros rc H. now apply Hr.
-    + intros sc' H. destruct (scache cs); [|discriminate]. inversion H; subst. intros c' s' L. discriminate.
-  - destruct (fetch_summary_spec t cs c Hw (conj Hr Hs)) as [_ F]. destruct (fetch_summary t cs c). exact F.
-  - destruct (query_datasets_spec t ty c cs Hw (conj Hr Hs)) as [_ F]. destruct (query_datasets t cs ty c). exact F.
+    + intros sc' H. destruct (scache cs); [|discriminate]. inversion H; subst. apply sc_ok_nil.
+  - destruct (fetch_summary_spec t cs c (conj Hi Hw) (conj Hr Hs)) as [_ F]. destruct (fetch_summary t cs c). exact F.
+  - destruct (query_datasets_spec t ty c cs (conj Hi Hw) (conj Hr Hs)) as [_ F]. destruct (query_datasets t cs ty c). exact F.
 Qed.
 
 (* the run without caching contexts never has caches *)
 Lemma fetch_uncached : forall t c, snd (fetch_summary t no_caches c) = no_caches.
-Proof. intros. unfold fetch_summary, children_of. simpl. destruct (lookup c (chains t)); reflexivity. Qed.
+Proof. intros. unfold fetch_summary, children_of. simpl. destruct (key_of t c); [|reflexivity]. destruct (lookup c (chains t)); reflexivity. Qed.
 Lemma qm_uncached : forall t ty ms, snd (query_members t no_caches ty ms) = no_caches.
 Proof.
   induction ms; cbn [query_members]; auto. assert (F := fetch_uncached t a). destruct (fetch_summary t no_caches a) as [s cs1].
   simpl in F. subst. destruct (query_members t no_caches ty ms). simpl in *. auto.
 Qed.
 Lemma qd_uncached : forall t ty c, snd (query_datasets t no_caches ty c) = no_caches.
-Proof. intros. unfold query_datasets, children_of. simpl. apply qm_uncached. Qed.
+Proof. intros. unfold query_datasets, children_of. simpl. destruct (key_of t c); [|reflexivity]. apply qm_uncached. Qed.
 
 Lemma uncached_step : forall fx t o, snd (fst (rstep fx false (t, no_caches) o)) = no_caches.
 Proof.
   intros. destruct o; cbn [rstep fst snd]; auto.
-  all: try (assert (F := fetch_uncached t c); destruct (fetch_summary t no_caches c); simpl in *; exact F).
-  all: try (assert (F := qd_uncached t ty c); destruct (query_datasets t no_caches ty c); simpl in *; exact F).
+  - destruct (exists_b t c); reflexivity.
+  - destruct (negb (exists_b t c) || is_kid t c); reflexivity.
+  - destruct (is_chain_b t c && forallb (fun m => exists_b t m && negb (is_chain_b t m)) kids); reflexivity.
+  - destruct (exists_b t run && negb (is_chain_b t run)); reflexivity.
+  - assert (F := fetch_uncached t c). destruct (fetch_summary t no_caches c). simpl in *. exact F.
+  - assert (F := qd_uncached t ty c). destruct (query_datasets t no_caches ty c). simpl in *. exact F.
 Qed.
 
 Lemma answers_step : forall fx t cs o, wf_tables t -> Coherent t cs ->
   snd (rstep fx true (t, cs) o) = snd (rstep fx false (t, no_caches) o).
 Proof.
   intros fx t cs o Hw Hc. destruct o; cbn [rstep fst snd]; try reflexivity.
+  - destruct (exists_b t c); reflexivity.
+  - destruct (negb (exists_b t c) || is_kid t c); reflexivity.
+  - destruct (is_chain_b t c && forallb (fun m => exists_b t m && negb (is_chain_b t m)) kids); reflexivity.
+  - destruct (exists_b t run && negb (is_chain_b t run)); reflexivity.
   - destruct (cache_transparent_p t cs 0 c Hw Hc) as [_ F]. destruct (fetch_summary t cs c), (fetch_summary t no_caches c). simpl in *. exact F.
   - destruct (cache_transparent_p t cs ty c Hw Hc) as [F _]. destruct (query_datasets t cs ty c), (query_datasets t no_caches ty c). simpl in *. exact F.
 Qed.
 
-Fixpoint wf_hist (t : tables) (h : list rop) : Prop :=
-  match h with
-  | [] => True
-  | o :: r => wf_rop t o /\ wf_hist (fst (fst (rstep true false (t, no_caches) o))) r
-  end.
-
-Lemma tables_fx : forall fx fx' uc uc' t cs cs' o, fst (fst (rstep fx uc (t, cs) o)) = fst (fst (rstep fx' uc' (t, cs') o)).
+(* every history: registrations, removals, chain edits, puts, queries, contexts in any order; no side condition on
+   the operations (the registry refuses the ill-formed ones and the model does the same) *)
+Lemma run_transparent_p : forall h t cs, wf_tables t -> Coherent t cs ->
+  snd (rrun as_coded true (t, cs) h) = snd (rrun as_coded false (t, no_caches) h)
+  /\ Coherent (fst (fst (rrun as_coded true (t, cs) h))) (snd (fst (rrun as_coded true (t, cs) h)))
+  /\ wf_tables (fst (fst (rrun as_coded true (t, cs) h))).
 Proof.
-  intros. destruct o; simpl; auto.
-  - destruct uc, uc'; auto.
-  - destruct (fetch_summary t cs c), (fetch_summary t cs' c). auto.
-  - destruct (query_datasets t cs ty c), (query_datasets t cs' ty c). auto.
-Qed.
-
-Lemma run_transparent_p : forall fx h t cs, wf_tables t -> Coherent t cs -> wf_hist t h ->
-  (fx = true \/ Forall no_setchain h) ->
-  snd (rrun fx true (t, cs) h) = snd (rrun fx false (t, no_caches) h)
-  /\ Coherent (fst (fst (rrun fx true (t, cs) h))) (snd (fst (rrun fx true (t, cs) h))).
-Proof.
-  induction h as [|o r IH]; intros t cs Hw Hc Hh Hf; [simpl; split; auto|].
-  cbn [wf_hist] in Hh. destruct Hh as [Ho Hr]. cbn [rrun].
-  assert (Hf1 : fx = true \/ no_setchain o) by (destruct Hf as [Hf|Hf]; [left; auto | right; now inversion Hf]).
-  assert (Hf2 : fx = true \/ Forall no_setchain r) by (destruct Hf as [Hf|Hf]; [left; auto | right; now inversion Hf]).
-  assert (A := answers_step fx t cs o Hw Hc).
-  assert (C := coherent_step fx true t cs o Hw Hc Hf1).
-  assert (W := wf_tables_step fx true t cs o Hw Ho).
-  assert (U := uncached_step fx t o).
-  assert (T := tables_fx fx fx true false t cs no_caches o).
-  rewrite <- (tables_fx fx true true false t cs no_caches o) in Hr.
-  destruct (rstep fx true (t, cs) o) as [[t1 cs1] a1]. destruct (rstep fx false (t, no_caches) o) as [[t2 cs2] a2].
+  induction h as [|o r IH]; intros t cs Hw Hc; [simpl; auto|]. cbn [rrun].
+  assert (A := answers_step as_coded t cs o Hw Hc).
+  assert (C := coherent_step true t cs o Hw Hc).
+  assert (W := wf_tables_step as_coded true t cs o Hw).
+  assert (U := uncached_step as_coded t o).
+  assert (T := tables_fx as_coded as_coded true false t cs no_caches o).
+  destruct (rstep as_coded true (t, cs) o) as [[t1 cs1] a1]. destruct (rstep as_coded false (t, no_caches) o) as [[t2 cs2] a2].
   cbn [fst snd] in *. subst.
-  destruct (IH t2 cs1 W C Hr Hf2) as [I1 I2].
-  destruct (rrun fx true (t2, cs1) r) as [s3 as3]. destruct (rrun fx false (t2, no_caches) r) as [s4 as4].
-  cbn [fst snd] in *. subst. split; auto.
+  destruct (IH t2 cs1 W C) as [I1 [I2 I3]].
+  destruct (rrun as_coded true (t2, cs1) r) as [s3 as3]. destruct (rrun as_coded false (t2, no_caches) r) as [s4 as4].
+  cbn [fst snd] in *. subst. auto.
 Qed.
+
+Lemma wf_empty : wf_tables empty_tables.
+Proof. split; [intros c c' k H; discriminate | intros c kids L; discriminate]. Qed.
 
 (* a client always sees its own completed write: the dataset it just inserted is in the answer *)
-Lemma datasets_in_put : forall t id ty run sm, In id (datasets_in (mkTables (chains t) sm (data t ++ [(id, ty, run)])) ty run).
+Lemma datasets_in_put : forall t id ty run ck ch sm, In id (datasets_in (mkTables ck ch sm (data t ++ [(id, ty, run)])) ty run).
 Proof.
   intros. unfold datasets_in. simpl. rewrite filter_app, map_app. apply in_or_app. right. simpl. rewrite !N.eqb_refl. simpl. auto.
 Qed.
